@@ -25,7 +25,7 @@ pub fn exec(line: &str) -> String {
             None => "none".into(),
             Some(e) => {
                 let (id, g) = parse_debug(e);
-                assert_eq!(id, e.id(), "harness: Debug id differs from id()");
+                assert_eq!(id, e.id(), "impl-inconsistency: Debug id differs from id()");
                 format!("id={} gen={} tobits={}", e.id(), g, e.to_bits().get())
             }
         },
@@ -41,7 +41,7 @@ pub fn exec(line: &str) -> String {
                     std::cmp::Ordering::Equal => 0,
                     std::cmp::Ordering::Greater => 1,
                 });
-                assert_eq!(Some(ord), pord, "harness: cmp and partial_cmp disagree");
+                assert_eq!(Some(ord), pord, "impl-inconsistency: cmp and partial_cmp disagree");
                 format!("eq={} ord={} hasheq={}", (a == b) as u8, ord, (hash_of(a) == hash_of(b)) as u8)
             }
             _ => "invalid".into(),
@@ -54,9 +54,15 @@ pub fn exec(line: &str) -> String {
             match (j, b) {
                 (Err(_), Err(_)) => "de=err".into(),
                 (Ok(ej), Ok(eb)) => {
-                    let sj: u64 = serde_json::to_string(&ej).unwrap().parse().expect("harness: json form is not a number");
+                    let sj: u64 = match serde_json::to_string(&ej).unwrap().parse() {
+                        Ok(v) => v,
+                        Err(_) => return "ser=not-a-number".into(),
+                    };
                     let sb = bincode::serialize(&eb).unwrap();
-                    let sbv = u64::from_le_bytes(sb.as_slice().try_into().expect("harness: bincode form is not 8 bytes"));
+                    let sbv = match <[u8; 8]>::try_from(sb.as_slice()) {
+                        Ok(a) => u64::from_le_bytes(a),
+                        Err(_) => return "ser=not-8-bytes".into(),
+                    };
                     if ej != eb || sj != sbv {
                         format!("de={} ser={} backends-disagree", ej.to_bits().get(), sj)
                     } else {
